@@ -139,6 +139,9 @@ func nativeRun(pkgPath string, ws []Witness, harnessNames []string, race bool, t
 			}
 		}
 	}
+	if err := instrumentOverlay(rel, tmp, ov); err != nil {
+		return nil, "", fmt.Errorf("instrumentation failed: %v", err)
+	}
 	var reg strings.Builder
 	sort.Strings(harnessNames)
 	for _, h := range harnessNames {
